@@ -32,8 +32,10 @@ MUTANTS = [
  ("no-buf-clear", "toasty/merge.py", "        if self._buf is not None:\n            self._buf.clear()", "        if self._buf is not None:\n            pass", ["C02"], ["C01"]),
  ("min-of-max", "toasty/merge.py", "max_value = max(max_values)", "max_value = min(max_values)", ["C14"], ["C02"]),
  ("range-from-merged", "toasty/merge.py", "        self._pio.write_image(pos, merged, min_value=min_value, max_value=max_value)", "        self._pio.write_image(pos, merged)", ["C14"], ["C02"]),
- ("lock-on-format-path", "toasty/pyramid.py", "        p = self.tile_path(pos)\n\n        with SoftFileLock", "        p = self.tile_path(pos, format=format)\n\n        with SoftFileLock", ["C10"], ["C09"]),
+ ("lock-on-format-path", "toasty/pyramid.py", "        p = self.tile_path(pos)\n\n        with SoftFileLock", "        p = self.tile_path(pos, format=format)\n\n        with SoftFileLock", [], ["C10", "C09"]),   # equivalent: different formats are different files
  ("lock-per-instance", "toasty/pyramid.py", "        with SoftFileLock(p + \".lock\"):", "        with SoftFileLock(p + str(id(self) % 7) + \".lock\"):", ["C10"], []),
+ ("lock-noop", "toasty/pyramid.py", "        with SoftFileLock(p + \".lock\"):", "        if True:", ["C10", "C09"], []),
+ ("read-before-lock", "toasty/pyramid.py", "        with SoftFileLock(p + \".lock\"):\n            img = self.read_image(\n                pos,\n                default=default,\n                masked_mode=masked_mode,\n                format=format or self._default_format,\n            )\n", "        img = self.read_image(\n            pos,\n            default=default,\n            masked_mode=masked_mode,\n            format=format or self._default_format,\n        )\n        with SoftFileLock(p + \".lock\"):\n", ["C10"], []),
  ("write-after-lock", "toasty/pyramid.py", "            yield img\n            self.write_image(pos, img, format=format or self._default_format)", "            yield img\n        self.write_image(pos, img, format=format or self._default_format)", ["C10", "C09"], []),
  ("no-unlink-masked", "toasty/pyramid.py", "            try:\n                os.unlink(p)\n            except (FileNotFoundError, OSError):\n                pass", "            pass", ["C15", "C02"], []),
  ("no-index-swap", "toasty/pipeline/__init__.py", "                filenames[-1] = 'index.wtml'\n                filenames[index_index] = temp", "                pass", ["C18"], []),
